@@ -703,6 +703,49 @@ fn random_record(rng: &mut Rng, r: &RVal) -> POpts {
 	o
 }
 
+/// One case of the family "values through the serde number token": `Deserialize for Value` is handed
+/// the number token map with the string `tok` by a foreign deserializer; whatever value comes out
+/// must print as a valid document that parses back to it.
+fn number_token_case(rep: &mut Report, rd: &mut Reader, tok: &str, nested: bool) {
+	use serde::Deserialize;
+	rep.evaluations += 1;
+	rep.distinct_by_construction(1);
+	let got = guard(|| {
+		let inner = serde::de::value::MapDeserializer::<_, serde::de::value::Error>::new(std::iter::once(("$serde_json::private::Number", tok)));
+		if nested {
+			Value::deserialize(serde::de::value::SeqDeserializer::<_, serde::de::value::Error>::new(std::iter::once(inner)))
+		} else {
+			Value::deserialize(inner)
+		}
+	});
+	let v = match got {
+		Ok(Ok(v)) => v,
+		Ok(Err(_)) => {
+			rep.count("number_token_strings_refused", 1);
+			return;
+		}
+		Err(p) => {
+			rep.violation("C04:panic", format!("[values-through-the-serde-number-token] deserializing the token map with {:?} panicked: {}", tok, p), json!({"sub": "number-token", "token": tok, "nested": nested}));
+			return;
+		}
+	};
+	rep.count("number_token_strings_accepted", 1);
+	for (what, text) in [("compact", guard(|| v.compact_print().to_string())), ("pretty", guard(|| v.pretty_print().to_string()))] {
+		let ok = match &text {
+			Ok(t) => rd.read(t.as_bytes(), false).accepts(Opts::STRICT) && matches!(guard(|| Value::parse_str(t).map(|x| x.0)), Ok(Ok(back)) if back == v),
+			Err(_) => false,
+		};
+		if !ok {
+			rep.violation(
+				"C04:invalid-output:value-from-deserialize",
+				format!("[values-through-the-serde-number-token] the value {:?} obtained by deserializing the number token map with {:?} prints ({}) as {:?}, which is not a valid document that parses back to it", v, tok, what, text),
+				json!({"sub": "number-token", "token": tok, "nested": nested}),
+			);
+			return;
+		}
+	}
+}
+
 fn run_print(cfg: &Config, id: &'static str) -> i32 {
 	let started = Instant::now();
 	let c04 = id == "C04";
@@ -1073,42 +1116,7 @@ fn run_print(cfg: &Config, id: &'static str) -> i32 {
 		let toks = ["0", "12", "-1.5e3", "1e", "01", "1.", "-", "+1", "0x1", "NaN", "Infinity", "1 ", " 1", "", "1,2", "1e+", ".5", "1.e2", "--1", "1e5", "-0", "1E-7", "true", "[1]", "\"1\"", "1\n", "9".repeat(40).as_str(), "1_000"].map(String::from);
 		for tok in toks.iter() {
 			for nested in [false, true] {
-				rep.evaluations += 1;
-				rep.distinct_by_construction(1);
-				let got = guard(|| {
-					let inner = serde::de::value::MapDeserializer::<_, serde::de::value::Error>::new(std::iter::once(("$serde_json::private::Number", tok.as_str())));
-					if nested {
-						Value::deserialize(serde::de::value::SeqDeserializer::<_, serde::de::value::Error>::new(std::iter::once(inner)))
-					} else {
-						Value::deserialize(inner)
-					}
-				});
-				let v = match got {
-					Ok(Ok(v)) => v,
-					Ok(Err(_)) => {
-						rep.count("number_token_strings_refused", 1);
-						continue;
-					}
-					Err(p) => {
-						rep.violation("C04:panic", format!("[values-through-the-serde-number-token] deserializing the token map with {:?} panicked: {}", tok, p), json!({"sub": "number-token", "token": tok, "nested": nested}));
-						continue;
-					}
-				};
-				rep.count("number_token_strings_accepted", 1);
-				for (what, text) in [("compact", guard(|| v.compact_print().to_string())), ("pretty", guard(|| v.pretty_print().to_string()))] {
-					let ok = match &text {
-						Ok(t) => rd.read(t.as_bytes(), false).accepts(Opts::STRICT) && matches!(guard(|| Value::parse_str(t).map(|x| x.0)), Ok(Ok(back)) if back == v),
-						Err(_) => false,
-					};
-					if !ok {
-						rep.violation(
-							"C04:invalid-output:value-from-deserialize",
-							format!("[values-through-the-serde-number-token] the value {:?} obtained by deserializing the number token map with {:?} prints ({}) as {:?}, which is not a valid document that parses back to it", v, tok, what, text),
-							json!({"sub": "number-token", "token": tok, "nested": nested}),
-						);
-						break;
-					}
-				}
+				number_token_case(&mut rep, &mut rd, tok, nested);
 			}
 		}
 		rep.count("family:values-through-the-serde-number-token", rep.evaluations);
@@ -1187,6 +1195,11 @@ pub fn selftest() -> Result<(), String> {
 }
 
 pub fn replay_case(id: &str, case: &serde_json::Value) -> Option<Vec<String>> {
+	if case.get("sub")?.as_str()? == "number-token" {
+		let mut rep = Report::new();
+		number_token_case(&mut rep, &mut Reader::new(), case.get("token")?.as_str()?, case.get("nested")?.as_bool()?);
+		return Some(rep.violations.iter().map(|v| format!("[{}] {}", v.signature, v.what)).collect());
+	}
 	let doc = case.get("value_compact")?.as_str()?;
 	let mut rd = Reader::new();
 	let r = rd.read(doc.as_bytes(), true).root?;
